@@ -15,7 +15,7 @@ func init() {
 	register(&Check{
 		ID:     "C17",
 		Level:  "exploration",
-		Rule:   "28 programs (find and replace, no / flat / nested variables from named loops, zero matches, skip windows, two commands, replacement text with per-cent signs) x every text of <= 4 (thorough 5) symbols over {a, \", \\, newline, 0x01, e-acute (2 bytes), 0xff, tab, %, colon, comma}, plus three programs on every list length 0..1100 (thorough 4200) matches: Json() and FormattedJson() must return, be valid JSON, decode to equal documents with one object per match whose filename, matchNumber, offset, line, column, value, variables (recursively) equal the in-memory match and whose replacement key is present exactly for replace commands; strings are compared exactly when valid UTF-8 and after U+FFFD substitution otherwise; non-trivial = distinct (program,text) pairs with at least one match",
+		Rule:   "28 programs (find and replace, no / flat / nested variables from named loops, zero matches, skip windows, two commands, replacement text with per-cent signs) x every text of <= 4 symbols (thorough: also every text of 5 symbols over a 7-symbol subset) over {a, \", \\, newline, 0x01, e-acute (2 bytes), 0xff, tab, %, colon, comma}, plus three programs on every list length 0..1100 (thorough 4200) matches: Json() and FormattedJson() must return, be valid JSON, decode to equal documents with one object per match whose filename, matchNumber, offset, line, column, value, variables (recursively) equal the in-memory match and whose replacement key is present exactly for replace commands; strings are compared exactly when valid UTF-8 and after U+FFFD substitution otherwise; non-trivial = distinct (program,text) pairs with at least one match",
 		Assume: []string{"encoding/json is the arbiter of validity and decoding"},
 		Budget: map[string]int{"quick": 120, "thorough": 900},
 		Run:    runC17,
@@ -135,7 +135,7 @@ func runC17(c *Ctx) {
 	syms := []string{"a", "\"", "\\", "\n", "\x01", "é", "\xff", "\t", "%", ":", ","}
 	var txts []string
 	var gen func(cur string, n int)
-	maxN := c.Pick(4, 5)
+	maxN := 4
 	gen = func(cur string, n int) {
 		txts = append(txts, cur)
 		if n == maxN {
@@ -146,6 +146,20 @@ func runC17(c *Ctx) {
 		}
 	}
 	gen("", 0)
+	if !c.Quick() {
+		// thorough: length 5 over the seven symbols that need escaping or cannot be represented
+		var gen5 func(cur string, n int)
+		gen5 = func(cur string, n int) {
+			if n == 5 {
+				txts = append(txts, cur)
+				return
+			}
+			for _, s := range []string{"a", "\"", "\\", "\n", "\xff", "%", ":"} {
+				gen5(cur+s, n+1)
+			}
+		}
+		gen5("", 0)
+	}
 	// sequences that look like JSON escapes, HTML characters, and a genuine U+FFFD
 	txts = append(txts, "\\u003c", "a\\u0026b\\u003e", "<&>", "\\u003c<", "\ufffd", "caf\ufffd\xff", "\\\\u003c", "\u2028\u2029", "\\/", "\\\"")
 	if !c.Level("product") {
@@ -161,7 +175,10 @@ func runC17(c *Ctx) {
 			c.Count("rejected_sources", 1)
 			continue
 		}
-		for _, t := range txts {
+		for i, t := range txts {
+			if i%2000 == 0 {
+				c.Sub(fmt.Sprintf("%s on text %d of %d", prog, i, len(txts)))
+			}
 			c17Eval(c, prog, v, t)
 		}
 	}
